@@ -27,9 +27,9 @@ FAMILIES = {
     "var1-cubic": dict(n_axes=1, layout="onaxis", n_glyphs=8, curves="cubic"),
     "var2-cubic-sparse": dict(n_axes=2, layout="mixed", n_glyphs=8, curves="cubic", sparse_glyphs=0.4, sparse_layers=1),
     "c06-partial-notdef-mid": dict(n_axes=0, n_glyphs=14, glyph_order="partial", notdef="middle", unicodes="multi", composites=0.4, non_export=2, nested=True),
-    "c06-none-notdef-last": dict(n_axes=1, layout="onaxis", n_glyphs=12, glyph_order="none", notdef="last", unicodes="multi"),
+    "c06-none-notdef-last": dict(n_axes=1, layout="onaxis", n_glyphs=12, glyph_order="none", notdef="last", unicodes="multi", post=lambda m, r: M.reuse_default_source(m, r)),
     "c06-full-notdef-first": dict(n_axes=0, n_glyphs=12, glyph_order="full", notdef="first", unicodes="multi", non_export=3, composites=0.5, nested=True),
-    "c06-full-nonotdef": dict(n_axes=1, layout="onaxis", n_glyphs=10, glyph_order="full", notdef="absent", unicodes="multi", non_export=2, composites=0.4),
+    "c06-full-nonotdef": dict(n_axes=1, layout="onaxis", n_glyphs=10, glyph_order="full", notdef="absent", unicodes="multi", non_export=2, composites=0.4, post=lambda m, r: M.reuse_default_source(m, r)),
     "c06-prodnames": dict(n_axes=0, n_glyphs=12, glyph_order="partial", notdef="middle", unicodes="multi", post=lambda m, r: M.production_names(m, r)),
     "c06-mixed": dict(n_axes=1, layout="onaxis", n_glyphs=10, composites=0.5, mixed_glyphs=0.6, glyph_order="partial", notdef="last"),
     "c08-1axis": dict(n_axes=1, layout="onaxis", n_glyphs=1, mapped=0.0, instances=3, post=lambda m, r: M.hostile_axes(m, r)),
